@@ -28,7 +28,7 @@ of the two SBOM extractors); the ecosystem-name conversion.
 import Scalibr.Proofs.Index
 import Scalibr.Gen.Purl
 import Scalibr.Spec.ProtoPkg
-import Scalibr.Model.Sbom
+import Scalibr.Proofs.SbomFields
 namespace Scalibr.Index
 open Scalibr.Gen.Purl
 
@@ -184,32 +184,6 @@ end Scalibr.ProtoPkg
 
 namespace Scalibr.Sbom
 
-/-- SPECIFICATION of what an SPDX consumer finds for a package (a filter over the inventory, not the exporter's
-loop): nothing without a purl or with an empty purl name or version; else the PURL's name and version (not
-`pkg.Name` / `pkg.Version`: SPDX packages are identified by the purl), the purl's printed form as the one
-external reference, and the locations only as the free-text summary `sourceInfo` (count + first two) — by
-design of `ToSPDX23`, so "locations verbatim" holds for CycloneDX and the proto, not for SPDX. -/
-def spdxRecord {Purl : Type} (ops : PurlOps Purl) (pkg : Pkg Purl) : Option (String × String × List String × String) :=
-  match pkg.purl with
-  | none => none
-  | some u =>
-    if ops.name u = "" ∨ ops.version u = "" then none
-    else some (ops.name u, ops.version u, [ops.str u], sourceInfo pkg.extractor pkg.locations)
-
-theorem spdxLoop_fields {Purl : Type} (ops : PurlOps Purl) (env : Env) (mainId : String) (inv : List (Pkg Purl)) (k : Nat) :
-    (spdxLoop ops env mainId k inv).1.map (fun p => (p.name, p.version, p.extRefs.map (·.locator), p.sourceInfo)) =
-      inv.filterMap (spdxRecord ops) := by
-  induction inv generalizing k with
-  | nil => rfl
-  | cons pkg rest ih =>
-    unfold spdxLoop
-    cases hp : pkg.purl with
-    | none => simp [spdxRecord, hp, ih]
-    | some u =>
-      by_cases he : ops.name u = "" ∨ ops.version u = ""
-      · simp [spdxRecord, hp, he, ih]
-      · simp [spdxRecord, hp, he, ih]
-
 /-- Every SPDX package record after the synthetic `main` one carries the purl name, purl version, the purl string
 and the location summary of its package, in inventory order; packages without an exportable purl are the only
 ones left out. (Against `spdxRecord`, a filter; the exporter is a loop with a uuid counter.) -/
@@ -219,17 +193,19 @@ theorem C14_spdx_fields {Purl : Type} (ops : PurlOps Purl) (env : Env) (cfg : SP
   unfold toSpdx
   simpa using spdxLoop_fields ops env _ inv 1
 
-def compFields : Component → String × String × String × List String
-  | .mk _ _ n v p _ occ _ => (n, v, p, occ)
-
-theorem cdxLoop_fields {Purl : Type} (ops : PurlOps Purl) (env : Env) (inv : List (Pkg Purl)) (k : Nat) :
-    (cdxLoop ops env k inv).map compFields =
-      inv.map fun pkg => (pkg.name, pkg.version, (match pkg.purl with | some u => ops.str u | none => ""), pkg.locations) := by
-  induction inv generalizing k with
-  | nil => rfl
-  | cons pkg rest ih =>
-    simp only [cdxLoop, cdxComponent, compFields, List.map_cons, ih]
-    cases pkg.purl <;> rfl
+/-- NOT VERBATIM, by design of `ToSPDX23` (the property's sentence "the proto and SBOM records preserve name, version,
+locations … and layer details verbatim" does not hold for SPDX as written): the SPDX record carries the PURL's name and
+version, not `pkg.Name` / `pkg.Version`; of three locations only the first two survive, in free text; layer details are
+not exported at all (`Sbom.Pkg` has no such field because neither exporter reads `LayerDetails`). Decided witness. -/
+def nvOps : PurlOps (String × String) := ⟨fun u => "pkg:x/" ++ u.1 ++ "@" ++ u.2, fun _ => none, (·.1), (·.2)⟩
+def nvPkg : Pkg (String × String) :=
+  { name := "Display Name", version := "v1", locations := ["a", "b", "c"], extractor := "ex", purl := some ("purlname", "1"), cpes := [] }
+theorem C14_spdx_not_verbatim :
+    ((toSpdx nvOps ⟨fun _ => "u", "now"⟩ ⟨"", "", []⟩ [nvPkg]).packages.drop 1).map
+        (fun p => (p.name, p.version, p.sourceInfo)) =
+      [("purlname", "1", "Identified by the ex extractor from 3 locations, including a and b")] ∧
+    nvPkg.name ≠ "purlname" ∧ nvPkg.version ≠ "1" := by
+  refine ⟨by decide +kernel, by decide, by decide⟩
 
 /-- (close to definitional: `cdxLoop` is a `map` with a uuid counter) Every CycloneDX component carries its
 package's name, version, purl string ("" without purl) and all its locations in order — the component list is
